@@ -86,7 +86,7 @@ def matrix_rep(p=0, q=0, r=0, signature=None, blades=None):
     Es = list(Es)
 
     Rs = Es.copy()
-    Iden = reduce(np.kron, [I for _ in range(d)])
+    Iden = reduce(np.kron, [I for _ in range(d)], np.eye(1, dtype=int))  # Also for d = 0.
     Rs.insert(0, Iden)
 
     # Extend Rs with the higher order basis-blades.
